@@ -284,6 +284,10 @@ static void churn(int me, uint64_t seed)
             }
         } else if (what < 45) {
             int want = (int)(xs64(&s) % MAXRANK), r = -7;
+            /* the old rank is given up somewhere inside the call: stop owning it before the call
+             * (owning it longer would blame a legitimate re-grant of it to somebody else) */
+            if (want != myrank[k])
+                unclaim(myrank[k], me);
             int rc = ABT_xstream_set_rank(mine[k], want);
             ABT_xstream_get_rank(mine[k], &r);
             if (rc == ABT_SUCCESS) {
@@ -293,7 +297,6 @@ static void churn(int me, uint64_t seed)
                 }
                 if (want != myrank[k]) {
                     claim(want, me, "set_rank");
-                    unclaim(myrank[k], me);
                     myrank[k] = want;
                 }
                 __sync_fetch_and_add(&n_set_ok, 1);
@@ -303,6 +306,9 @@ static void churn(int me, uint64_t seed)
                            myrank[k]);
                     race_bad = 1;
                 }
+                /* refused: the stream held its old rank all along, nobody else can have been granted it */
+                if (want != myrank[k])
+                    claim(myrank[k], me, "set_rank(refused, re-own)");
                 __sync_fetch_and_add(&n_set_fail, 1);
             }
         } else {
